@@ -346,14 +346,17 @@ Call(c, s, ps, input, cap, capok, inok, t, super, rep, f, n) ==
     /\ UNCHANGED <<height, now, phase, params, bal, supply, defs, bind, powner, oprov, obind,
                    waddr, expQ, expQH, req, actId, actBind, resp, vol, earned, oearned>>
 
-\* keeper entry point used by another module (module name mod, callbacks registered)
-CanModCreate(c, s, ps, capok, inok, t, thr) ==
+\* keeper entry point used by another module (module name mod): only for a module that has registered
+\* both its response and its state callback
+FullModules == {"vmod"}
+CanModCreate(mod, c, s, ps, capok, inok, t, thr) ==
     /\ phase = "deliver"
+    /\ mod \in FullModules
     /\ thr >= 1 /\ thr <= Len(ps)
     /\ CanCreate(s, capok, inok, t)
 
 ModCreateR(mod, c, s, ps, input, cap, capok, inok, t, super, rep, f, n, st, thr, rr, rs, rt) ==
-    /\ CanModCreate(c, s, ps, capok, inok, t, thr)
+    /\ CanModCreate(mod, c, s, ps, capok, inok, t, thr)
     /\ CreateEffects(nctx + 1, NewCtxR(s, ps, c, input, cap, t, super, rep, f, n, st, thr, mod, rr, rs, rt))
     /\ cb' = <<>>
     /\ UNCHANGED <<height, now, phase, params, bal, supply, defs, bind, powner, oprov, obind,
